@@ -219,6 +219,17 @@ func verifyFunc(reg *Registry, pkgRel, key string, closureOrd int) (rep FuncRepo
 	}
 	fc.entry = st.clone()
 	fc.obls = append(fc.obls, &Obligation{Name: name + "/vacuity.pre", Hyps: append([]*Term(nil), st.pc...), Goal: TTrue, Kind: "vacuity", Func: name, Expect: "sat"})
+	if c.Flags["recovers"] != "" {
+		// `flag recovers`: the function promises its callers that a panic of what it calls does not escape. recover()
+		// is not modelled; what can be checked is Go's structural condition for it to work at all: a `defer` at the top
+		// level of the body, before any other statement that can fail, whose function literal calls recover()
+		// DIRECTLY (one frame deeper, in a helper the literal calls, recover() returns nil and the panic goes on).
+		goal := TFalse
+		if recoversDirectly(body) {
+			goal = TTrue
+		}
+		fc.obls = append(fc.obls, &Obligation{Name: name + "/recover.direct", Hyps: nil, Goal: goal, Kind: "safe", Func: name})
+	}
 	fc.ghostHookStmt(st, fr, "entry") // `ghost at entry: g := e` (after the old() snapshot)
 	outs := fr.execBlock(st, body.List)
 	for _, o := range outs {
@@ -458,3 +469,52 @@ func groupByName(obls []*Obligation) (names []string, groups map[string][]*Oblig
 
 var _ = strings.TrimSpace
 var _ ast.Node
+
+
+// recoversDirectly: the body starts (possibly after other defers and simple declarations) with a
+// `defer func() { ... recover() ... }()` whose literal calls the builtin recover itself.
+func recoversDirectly(body *ast.BlockStmt) bool {
+	for _, st := range body.List {
+		d, ok := st.(*ast.DeferStmt)
+		if !ok {
+			switch x := st.(type) {
+			case *ast.DeclStmt:
+				continue
+			case *ast.AssignStmt:
+				// errPrefix := "filters": literals and plain names cannot fail
+				plain := true
+				for _, r := range x.Rhs {
+					switch r.(type) {
+					case *ast.BasicLit, *ast.Ident:
+					default:
+						plain = false
+					}
+				}
+				if plain {
+					continue
+				}
+			}
+			return false
+		}
+		lit, ok := d.Call.Fun.(*ast.FuncLit)
+		if !ok {
+			continue
+		}
+		found := false
+		ast.Inspect(lit.Body, func(n ast.Node) bool {
+			switch x := n.(type) {
+			case *ast.FuncLit:
+				return false // a nested literal is another frame
+			case *ast.CallExpr:
+				if id, ok := x.Fun.(*ast.Ident); ok && id.Name == "recover" && len(x.Args) == 0 {
+					found = true
+				}
+			}
+			return true
+		})
+		if found {
+			return true
+		}
+	}
+	return false
+}
